@@ -5,7 +5,8 @@ That the value returned is the mathematically specified one is numerical and NOT
 MIR of the closures the registry binds to `sass:math` (crate-local callees in the math module followed):
 
  (i)   kernel table: sqrt / exp / sin / cos / tan / asin / acos / atan / atan2 / pow / log each call the
-       f64 operation of the same name (powf for pow, a log for log) and none of the OTHER named kernels
+       f64 operation of the same name (powf for pow — an integer-power shortcut through powi is a
+       different function of the exponent —, a log for log) and none of the OTHER named kernels
        (so `math.sin` cannot compute a cosine); abs / ceil / floor / round call the Number method of the
        same name;
  (ii)  abs / ceil / floor / round keep units: the Numeric they return is built with the unit of their
@@ -74,7 +75,7 @@ def run(ctx, F):
             continue
         fam = family(prog, impl[name])
         f64s = sorted({mir.short(mir.callee_name(t) or "").split("::")[-1] for b in fam for _, t in b.calls() if mir.short(mir.callee_name(t) or "").startswith("<f64>::")})
-        others = [k for k in f64s if k in ALL_KERNELS and k != want and not (name == "log" and k in ("ln", "log", "log2", "log10")) and not (name == "pow" and k in ("powf", "powi"))]
+        others = [k for k in f64s if k in ALL_KERNELS and k != want and not (name == "log" and k in ("ln", "log", "log2", "log10"))]
         key = f"sass:math.{name} -> f64::{want}"
         has = want in f64s or (name == "log" and any(k in f64s for k in ("ln", "log")))
         if has and not others:
@@ -208,16 +209,19 @@ def run(ctx, F):
         b = fes[0]
         key = "find_extreme keeps the current value when it compares as preferred"
         dom = b.dominators()
-        c2 = [(bi, t) for bi, t in b.calls() if (mir.callee_name(t) or "").endswith("math::cmp2")]
+        # the ordering comparison of (current, candidate): whatever function computes the Option<Ordering>
+        c2 = [(bi, t) for bi, t in b.calls() if re.search(r"Option<std::cmp::Ordering>$", str(t.get("dest_ty", ""))) and len(t["args"]) == 2
+              and all("Numeric" in str(x) for x in (t.get("arg_tys") or ["", ""])[:2])]
+        c2_names = {mir.callee_name(t) or "" for _, t in c2}
         eqs = []
         for bi, t in b.calls():
             m = re.search(r"PartialEq>?::(eq|ne)$", mir.callee_name(t) or "")
             if m and "Ordering" in str(t["callee"].get("self_ty", "")) + str(t.get("arg_tys", "")) and len(t["args"]) == 2 and t.get("target") is not None:
                 terms = [repr(S.operand(b, x)) for x in t["args"]]
-                if any("cmp2" in x for x in terms) and any("'param', 2" in x or "arg2" in sym.show(S.operand(b, a_)) for x, a_ in zip(terms, t["args"])):
+                if any(any(n and n in x for n in c2_names) for x in terms) and any("'param', 2" in x or "arg2" in sym.show(S.operand(b, a_)) for x, a_ in zip(terms, t["args"])):
                     eqs.append((bi, t, m.group(1)))
         if len(c2) != 1 or len(eqs) != 1:
-            ctx.anchor_lost("find_extreme selection", f"{len(c2)} cmp2 calls, {len(eqs)} comparisons of its result with the preference")
+            ctx.anchor_lost("find_extreme selection", f"{len(c2)} ordering comparisons of two numbers, {len(eqs)} comparisons of such a result with the preference")
         else:
             def base_local(op):
                 """the local the reference argument points into"""
